@@ -350,14 +350,14 @@ Definition to_float_spec (f : fmt) (m : mode) (s e : Z) : frounded :=
 (** a normalised representation (odd significand) whose value is at least the smallest normal *)
 Theorem fbig2_to_float_normalized m s e :
   s mod 2 <> 0 -> 1 - BIAS P < blen (Z.abs s) + e ->
-  fbig2_to_float P m s e = to_float_spec (fmt_of P) m s e.
+  fbig2_to_float_old P m s e = to_float_spec (fmt_of P) m s e.
 Proof.
   intros Hodd Hn. assert (Hs : s <> 0) by (intros ->; apply Hodd; reflexivity).
   assert (Hsgn : ((Z.sgn s <? 0) = (s <? 0)) /\ ((0 <? Z.sgn s) = negb (s <? 0))).
   { destruct (Z.ltb_spec (Z.sgn s) 0); destruct (Z.ltb_spec 0 (Z.sgn s)); destruct (Z.ltb_spec s 0);
       cbn [negb]; split; try reflexivity; lia. }
   destruct Hsgn as [Hsg1 Hsg2].
-  unfold fbig2_to_float, to_float_spec. cbv zeta. rewrite normalize_id by (assumption || lia).
+  unfold fbig2_to_float_old, to_float_spec. cbv zeta. rewrite normalize_id by (assumption || lia).
   destruct (Z.le_gt_cases (blen (Z.abs s)) (MB P + 1)) as [Hd|Hd].
   - rewrite repr_round_exact by (rewrite dlen2_blen; exact Hd).
     rewrite into_float_normal, (ieee_round_normal_exact m) by assumption.
@@ -409,12 +409,12 @@ Qed.
 (** any finite non-zero representation (the model normalises first) *)
 Theorem fbig2_to_float_correct m s e :
   s <> 0 -> 1 - BIAS P < blen (Z.abs s) + e ->
-  fbig2_to_float P m s e = to_float_spec (fmt_of P) m s e.
+  fbig2_to_float_old P m s e = to_float_spec (fmt_of P) m s e.
 Proof.
   intros Hs Hn.
   pose proof (normalize_spec 2 ltac:(lia) s e) as Hnz.
-  assert (E0 : fbig2_to_float P m s e = fbig2_to_float P m (fst (normalize 2 s e)) (snd (normalize 2 s e))).
-  { unfold fbig2_to_float. destruct (normalize 2 s e) as [s0 e0]. cbn [fst snd].
+  assert (E0 : fbig2_to_float_old P m s e = fbig2_to_float_old P m (fst (normalize 2 s e)) (snd (normalize 2 s e))).
+  { unfold fbig2_to_float_old. destruct (normalize 2 s e) as [s0 e0]. cbn [fst snd].
     destruct Hnz as [_ Hnz]. destruct (Hnz Hs) as (_ & Hodd & _).
     rewrite (normalize_id 2 s0 e0) by (assumption || lia). reflexivity. }
   rewrite E0. clear E0. destruct (normalize 2 s e) as [s0 e0]. cbn [fst snd].
@@ -442,12 +442,12 @@ Definition short_flag (P : enc_params) (s e : Z) (c : comparison) : option round
 
 Theorem fbig2_to_float_short_normalized m s e :
   s mod 2 <> 0 -> blen (Z.abs s) <= MB P + 1 ->
-  fbig2_to_float P m s e =
+  fbig2_to_float_old P m s e =
     FR (fst (ieee_rne (fmt_of P) (fst (frac_of s e)) (snd (frac_of s e))))
        (short_flag P s e (snd (ieee_rne (fmt_of P) (fst (frac_of s e)) (snd (frac_of s e))))).
 Proof.
   intros Hodd Hb. assert (Hs : s <> 0) by (intros ->; apply Hodd; reflexivity).
-  unfold fbig2_to_float. rewrite normalize_id by (assumption || lia).
+  unfold fbig2_to_float_old. rewrite normalize_id by (assumption || lia).
   rewrite repr_round_exact by (rewrite dlen2_blen; exact Hb).
   unfold into_float_internal, short_flag.
   replace (e + blen (Z.abs s)) with (blen (Z.abs s) + e) by lia.
@@ -467,14 +467,14 @@ Qed.
 
 Theorem fbig2_to_float_short m s e :
   s <> 0 -> blen (Z.abs s) <= MB P + 1 ->
-  fbig2_to_float P m s e =
+  fbig2_to_float_old P m s e =
     FR (fst (ieee_rne (fmt_of P) (fst (frac_of s e)) (snd (frac_of s e))))
        (short_flag P s e (snd (ieee_rne (fmt_of P) (fst (frac_of s e)) (snd (frac_of s e))))).
 Proof.
   intros Hs Hb.
   pose proof (normalize_spec 2 ltac:(lia) s e) as Hnz.
-  assert (E0 : fbig2_to_float P m s e = fbig2_to_float P m (fst (normalize 2 s e)) (snd (normalize 2 s e))).
-  { unfold fbig2_to_float. destruct (normalize 2 s e) as [s0 e0]. cbn [fst snd].
+  assert (E0 : fbig2_to_float_old P m s e = fbig2_to_float_old P m (fst (normalize 2 s e)) (snd (normalize 2 s e))).
+  { unfold fbig2_to_float_old. destruct (normalize 2 s e) as [s0 e0]. cbn [fst snd].
     destruct Hnz as [_ Hnz]. destruct (Hnz Hs) as (_ & Hodd & _).
     rewrite (normalize_id 2 s0 e0) by (assumption || lia). reflexivity. }
   rewrite E0. clear E0. destruct (normalize 2 s e) as [s0 e0]. cbn [fst snd].
@@ -523,7 +523,7 @@ Qed.
     for |s| * 2^e >= 2^-1022: the IEEE rounding of the exact value with the truthful flag *)
 Theorem fbig2_to_f64_correct m s e :
   s <> 0 -> emin F64 + prec F64 - 1 < blen (Z.abs s) + e ->
-  fbig2_to_float P64 m s e =
+  fbig2_to_float_old P64 m s e =
     FR (fst (ieee_round F64 m (fst (frac_of s e)) (snd (frac_of s e))))
        (flag_of_error (Z.sgn s) (snd (ieee_round F64 m (fst (frac_of s e)) (snd (frac_of s e))))).
 Proof.
@@ -535,7 +535,7 @@ Qed.
 (** FBig<R,2>::to_f32 (mode R) / Repr<2>::to_f32 for |s| * 2^e >= 2^-126 *)
 Theorem fbig2_to_f32_correct m s e :
   s <> 0 -> emin F32 + prec F32 - 1 < blen (Z.abs s) + e ->
-  fbig2_to_float P32 m s e =
+  fbig2_to_float_old P32 m s e =
     FR (fst (ieee_round F32 m (fst (frac_of s e)) (snd (frac_of s e))))
        (flag_of_error (Z.sgn s) (snd (ieee_round F32 m (fst (frac_of s e)) (snd (frac_of s e))))).
 Proof.
@@ -547,32 +547,32 @@ Qed.
 (** through the base dispatch of FBig::to_f32 / to_f64 *)
 Corollary fbig_to_f64_base2_correct m s e :
   s <> 0 -> emin F64 + prec F64 - 1 < blen (Z.abs s) + e ->
-  fbig_to_float P64 2 m s e = Ok (to_float_spec F64 m s e).
-Proof. intros Hs Hn. unfold fbig_to_float. cbn [Z.eqb Pos.eqb]. rewrite fbig2_to_f64_correct by assumption. reflexivity. Qed.
+  fbig_to_float_old P64 2 m s e = Ok (to_float_spec F64 m s e).
+Proof. intros Hs Hn. unfold fbig_to_float_old. cbn [Z.eqb Pos.eqb]. rewrite fbig2_to_f64_correct by assumption. reflexivity. Qed.
 
 Corollary fbig_to_f32_base2_correct m s e :
   s <> 0 -> emin F32 + prec F32 - 1 < blen (Z.abs s) + e ->
-  fbig_to_float P32 2 m s e = Ok (to_float_spec F32 m s e).
-Proof. intros Hs Hn. unfold fbig_to_float. cbn [Z.eqb Pos.eqb]. rewrite fbig2_to_f32_correct by assumption. reflexivity. Qed.
+  fbig_to_float_old P32 2 m s e = Ok (to_float_spec F32 m s e).
+Proof. intros Hs Hn. unfold fbig_to_float_old. cbn [Z.eqb Pos.eqb]. rewrite fbig2_to_f32_correct by assumption. reflexivity. Qed.
 
 (** non-vacuity: a tie, a carry into overflow at 2^1024, a directed mode that stays finite, a
     negative value, an unnormalised input *)
 Example fbig2_to_f64_examples :
-  fbig2_to_float P64 MHalfEven (2 ^ 53 + 1) 0 = FR 4845873199050653696 (Some NoOp) /\
-  fbig2_to_float P64 MHalfEven (2 ^ 53 + 3) 0 = FR 4845873199050653698 (Some AddOne) /\
-  fbig2_to_float P64 MHalfEven (2 ^ 54 - 1) 970 = FR 9218868437227405312 (Some AddOne) /\
-  fbig2_to_float P64 MZero (2 ^ 54 - 1) 970 = FR 9218868437227405311 (Some NoOp) /\
-  fbig2_to_float P64 MDown (- (2 ^ 54 - 1)) 970 = FR (2 ^ 63 + 9218868437227405312) (Some SubOne) /\
-  fbig2_to_float P64 MHalfEven 1 1024 = FR 9218868437227405312 (Some AddOne) /\
-  fbig2_to_float P64 MHalfEven 12 5 = FR 4645463015632666624 None /\
+  fbig2_to_float_old P64 MHalfEven (2 ^ 53 + 1) 0 = FR 4845873199050653696 (Some NoOp) /\
+  fbig2_to_float_old P64 MHalfEven (2 ^ 53 + 3) 0 = FR 4845873199050653698 (Some AddOne) /\
+  fbig2_to_float_old P64 MHalfEven (2 ^ 54 - 1) 970 = FR 9218868437227405312 (Some AddOne) /\
+  fbig2_to_float_old P64 MZero (2 ^ 54 - 1) 970 = FR 9218868437227405311 (Some NoOp) /\
+  fbig2_to_float_old P64 MDown (- (2 ^ 54 - 1)) 970 = FR (2 ^ 63 + 9218868437227405312) (Some SubOne) /\
+  fbig2_to_float_old P64 MHalfEven 1 1024 = FR 9218868437227405312 (Some AddOne) /\
+  fbig2_to_float_old P64 MHalfEven 12 5 = FR 4645463015632666624 None /\
   emin F64 + prec F64 - 1 < blen (Z.abs (2 ^ 53 + 1)) + 0.
 Proof. vm_compute. repeat split; reflexivity. Qed.
 
 Example fbig2_to_f32_examples :
-  fbig2_to_float P32 MUp (2 ^ 24 + 1) 0 = FR 1266679809 (Some AddOne) /\
-  fbig2_to_float P32 MDown (2 ^ 24 + 1) 0 = FR 1266679808 (Some NoOp) /\
-  fbig2_to_float P32 MAway (- (2 ^ 24 + 1)) 0 = FR (2 ^ 31 + 1266679809) (Some SubOne) /\
-  fbig2_to_float P32 MHalfAway (2 ^ 25 - 1) 103 = FR 2139095040 (Some AddOne) /\
+  fbig2_to_float_old P32 MUp (2 ^ 24 + 1) 0 = FR 1266679809 (Some AddOne) /\
+  fbig2_to_float_old P32 MDown (2 ^ 24 + 1) 0 = FR 1266679808 (Some NoOp) /\
+  fbig2_to_float_old P32 MAway (- (2 ^ 24 + 1)) 0 = FR (2 ^ 31 + 1266679809) (Some SubOne) /\
+  fbig2_to_float_old P32 MHalfAway (2 ^ 25 - 1) 103 = FR 2139095040 (Some AddOne) /\
   emin F32 + prec F32 - 1 < blen (Z.abs (2 ^ 24 + 1)) + 0.
 Proof. vm_compute. repeat split; reflexivity. Qed.
 
@@ -580,12 +580,12 @@ Proof. vm_compute. repeat split; reflexivity. Qed.
     bits first (finding class fbig_to_float_subnormal) *)
 Example fbig2_to_f64_below_normal_differs :
   blen (Z.abs (2 ^ 54 + 5)) + (-1077) = emin F64 + prec F64 - 1 /\
-  fbig2_to_float P64 MHalfEven (2 ^ 54 + 5) (-1077) <> to_float_spec F64 MHalfEven (2 ^ 54 + 5) (-1077).
+  fbig2_to_float_old P64 MHalfEven (2 ^ 54 + 5) (-1077) <> to_float_spec F64 MHalfEven (2 ^ 54 + 5) (-1077).
 Proof. vm_compute. split; [reflexivity | discriminate]. Qed.
 
 (** short significands over the whole range, instances *)
 Theorem fbig2_to_f64_short m s e : s <> 0 -> blen (Z.abs s) <= 53 ->
-  fbig2_to_float P64 m s e =
+  fbig2_to_float_old P64 m s e =
     FR (fst (ieee_rne F64 (fst (frac_of s e)) (snd (frac_of s e))))
        (short_flag P64 s e (snd (ieee_rne F64 (fst (frac_of s e)) (snd (frac_of s e))))).
 Proof.
@@ -595,7 +595,7 @@ Proof.
 Qed.
 
 Theorem fbig2_to_f32_short m s e : s <> 0 -> blen (Z.abs s) <= 24 ->
-  fbig2_to_float P32 m s e =
+  fbig2_to_float_old P32 m s e =
     FR (fst (ieee_rne F32 (fst (frac_of s e)) (snd (frac_of s e))))
        (short_flag P32 s e (snd (ieee_rne F32 (fst (frac_of s e)) (snd (frac_of s e))))).
 Proof.
@@ -605,9 +605,9 @@ Proof.
 Qed.
 
 Example fbig2_to_f32_short_examples :
-  fbig2_to_float P32 MHalfEven 3 (-151) = FR 1 (Some NoOp) /\
-  fbig2_to_float P32 MZero 3 (-151) = FR 1 (Some NoOp) /\
-  fbig2_to_float P32 MHalfEven 5 (-149) = FR 5 None /\
-  fbig2_to_float P32 MHalfEven (-1) (-151) = FR (2 ^ 31) (Some NoOp) /\
+  fbig2_to_float_old P32 MHalfEven 3 (-151) = FR 1 (Some NoOp) /\
+  fbig2_to_float_old P32 MZero 3 (-151) = FR 1 (Some NoOp) /\
+  fbig2_to_float_old P32 MHalfEven 5 (-149) = FR 5 None /\
+  fbig2_to_float_old P32 MHalfEven (-1) (-151) = FR (2 ^ 31) (Some NoOp) /\
   fst (ieee_rne F32 (fst (frac_of 3 (-151))) (snd (frac_of 3 (-151)))) = 1.
 Proof. vm_compute. repeat split; reflexivity. Qed.
